@@ -106,3 +106,12 @@ class BLOB(Element):
             return
 
         self._value = blob_value
+
+    def to_new_message(self):
+        blob_value = self._new_value
+        return self.new_message_class(
+            name=self.name,
+            value=blob_value.binary_base64,
+            format=blob_value.format,
+            size=blob_value.size,
+        )
